@@ -63,3 +63,45 @@ Lemma derive_enum_now_refuses :
   /\ derive_case_marshal false (CFields true [A3; A3; A3]) (PFields [a3_v; a3_v; a3_v]) {| mbuf := [7]; mfds := 0 |}
      = ({| mbuf := [7]; mfds := 0 |}, false).
 Proof. vm_compute. split; reflexivity. Qed.
+
+(** Historical (after dec59e1, before commit ef1b771 "fix: the typed variant writers validate the signature they
+    write"): the generated code checked the LENGTH of the case signature only. A case type whose signature is short
+    but forbidden by the protocol - 33 nested Vec: "aaaaaaaaaaaaaaaaaaaaaaaaaaaaaaaaay", more than 32 array levels -
+    was written as a variant (the body then fails validation), while dbus_variant_sig! and the Param API refuse it
+    (and marshal_as_variant only debug_assert!ed). Finding D30. *)
+Definition derive_case_marshal_old2 (be : bool) (k : ecase) (p : epay) (c : mctx) : mres :=
+  match k, p with
+  | CSingle r, PSingle v =>
+      if 255 <? len (sig_str_r r) then (c, false)
+      else marshal_t be v {| mbuf := write_signature (sig_str_r r) (mbuf c); mfds := mfds c |}
+  | CFields _ rs, PFields vs =>
+      let pos := len (mbuf c) in
+      let b1 := mbuf c ++ [0] ++ [c_lpar] ++ flat_map sig_str_r rs ++ [c_rpar] ++ [0] in
+      let sig_len := len b1 - pos - 2 in
+      if 255 <? sig_len then ({| mbuf := firstnN pos b1; mfds := mfds c |}, false) else
+      let b2 := set_byte pos (sig_len mod 256) b1 in
+      derive_struct_marshal (map (marshal_t be) vs) {| mbuf := b2; mfds := mfds c |}
+  | _, _ => (c, false)
+  end.
+
+Fixpoint nest_vec (n : nat) (r : rty) : rty := match n with O => r | S n' => RArray (nest_vec n' r) end.
+Fixpoint nest_arr_ty (n : nat) (t : ty) : ty := match n with O => t | S n' => TArray (nest_arr_ty n' t) end.
+(* the empty value of Vec^(n+1)<u8> *)
+Definition V33 : rty := nest_vec 33 (RBase BByte).
+Definition v33_empty : val := VArray (nest_arr_ty 32 (TBase BByte)) [].
+
+Theorem C16_old2_derive_enum_refuted :
+  let c := {| mbuf := []; mfds := 0 |} in
+  len (sig_str_r V33) = 34 /\ is_ok (validate_signature (sig_str_r V33)) = false /\ wt v33_empty (sig_r V33) = true
+  (* single unnamed field, several fields, named field: the old code writes the variant *)
+  /\ snd (derive_case_marshal_old2 false (CSingle V33) (PSingle v33_empty) c) = true
+  /\ snd (derive_case_marshal_old2 false (CFields false [V33; RBase BByte]) (PFields [v33_empty; VBase BByte 1]) c) = true
+  /\ snd (derive_case_marshal_old2 false (CFields true [V33]) (PFields [v33_empty]) c) = true
+  (* the current code refuses all three and writes nothing, like the Variant wrapper *)
+  /\ derive_case_marshal false (CSingle V33) (PSingle v33_empty) c = (c, false)
+  /\ derive_case_marshal false (CFields false [V33; RBase BByte]) (PFields [v33_empty; VBase BByte 1]) c = (c, false)
+  /\ derive_case_marshal false (CFields true [V33]) (PFields [v33_empty]) c = (c, false)
+  /\ marshal_t false (VVariant (sig_r V33) v33_empty) c = (c, false)
+  (* 32 levels are fine for everybody *)
+  /\ snd (derive_case_marshal false (CSingle (nest_vec 32 (RBase BByte))) (PSingle (VArray (nest_arr_ty 31 (TBase BByte)) [])) c) = true.
+Proof. vm_compute. repeat split. Qed.
